@@ -364,8 +364,9 @@ def ritem_coq(it, et, tids, preds):
             vs.append("{| rv_attrs := %s; rv_ident := %s; rv_fields := %s |}" % (
                 raws_coq(variant_raw(v, an), et, preds), coq_str(v["name"]), rfields_coq(v["fields"], an, et, tids, preds)))
         data = "REnum [%s]" % "; ".join(vs)
-    return "{| ri_attrs := %s; ri_ident := %s; ri_params := %s; ri_data := (%s) |}" % (
-        raws_coq(container_raw(it["container"], an), et, preds), coq_str(it["name"]), params, data)
+    wh = "[%s]" % "; ".join(str(preds.setdefault(nows(p), len(preds) + 1)) for p in it.get("where", []))
+    return "{| ri_attrs := %s; ri_ident := %s; ri_params := %s; ri_where := %s; ri_data := (%s) |}" % (
+        raws_coq(container_raw(it["container"], an), et, preds), coq_str(it["name"]), params, wh, data)
 
 
 # ------------------------------------------------------------------ fields / items
@@ -392,8 +393,14 @@ def fields_coq(fs, et, tids):
                                             "; ".join(fl))
 
 
-def generics_src(params, extra_where=()):
-    return ("<" + ", ".join(params) + ">") if params else ""
+def generics_src(params, inline=None):
+    """`inline`: {param: bound source} written inside the angle brackets (`<T: Clone, U>`)"""
+    inline = inline or {}
+    return ("<" + ", ".join(p + (": " + inline[p] if p in inline else "") for p in params) + ">") if params else ""
+
+
+def where_src(it):
+    return (" where " + ", ".join(it["where"])) if it.get("where") else ""
 
 
 def item_src(it):
@@ -403,19 +410,24 @@ def item_src(it):
     c = it["container"]
     for r in container_raw(c, an):
         lines.append(raw_src(r))
-    g = generics_src(it["params"])
+    g = generics_src(it["params"], it.get("inline"))
+    w = where_src(it)
     if it["kind"] == "union":
-        lines.append("union %s%s%s" % (it["name"], g, fields_src(it["fields"], an)))
+        lines.append("union %s%s%s%s" % (it["name"], g, w, fields_src(it["fields"], an)))
     elif it["kind"] == "struct":
         fs = it["fields"]
         body = fields_src(fs, an)
-        lines.append("struct %s%s%s%s" % (it["name"], g, body, "" if fs["kind"] == "named" else ";"))
+        # the where clause of a named struct precedes the braces, that of a tuple / unit struct follows the fields
+        if fs["kind"] == "named":
+            lines.append("struct %s%s%s%s" % (it["name"], g, w, body))
+        else:
+            lines.append("struct %s%s%s%s;" % (it["name"], g, body, w))
     else:
         vs = []
         for v in it["variants"]:
             pre = "".join(raw_src(r) + " " for r in variant_raw(v, an))
             vs.append(pre + v["name"] + fields_src(v["fields"], an))
-        lines.append("enum %s%s { %s }" % (it["name"], g, ", ".join(vs)))
+        lines.append("enum %s%s%s { %s }" % (it["name"], g, w, ", ".join(vs)))
     return "\n".join(lines)
 
 
